@@ -885,14 +885,18 @@ func (n *RegexNode) FindLastExpressionInLoopForAutoAtomic() *RegexNode {
 // iterateNullableSubsequent is whether to allow examining nodes beyond subsequent.
 // allowLazy is whether lazy loops in addition to greedy loops should be considered for atomicity.
 func (n *RegexNode) canBeMadeAtomic(subsequent *RegexNode, iterateNullableSubsequent, allowLazy bool) bool {
+	return n.canBeMadeAtomicAfter(subsequent, iterateNullableSubsequent, allowLazy, false)
+}
+
+// canBeMadeAtomic for a successor reached by a walk that has (steppedOverNonboundary) or has not stepped
+// over a \B; the branches of an alternation continue the walk of their caller.  A \B after a loop of
+// non-word characters holds between two of the loop's characters but not after the last one when a word
+// character follows, so the loop may have to give characters back for it.
+func (n *RegexNode) canBeMadeAtomicAfter(subsequent *RegexNode, iterateNullableSubsequent, allowLazy, steppedOverNonboundary bool) bool {
 	// In most case, we'll simply check the node against whatever subsequent is.  However, in case
 	// subsequent ends up being a loop with a min bound of 0, we'll also need to evaluate the node
 	// against whatever comes after subsequent.  In that case, we'll walk the tree to find the
 	// next subsequent, and we'll loop around against to perform the comparison again.
-	// Set once the walk below has stepped over a \B.  A \B after a loop of non-word characters holds
-	// between two of the loop's characters but not after the last one when a word character follows,
-	// so the loop may have to give characters back for it.
-	steppedOverNonboundary := false
 	for {
 		// Skip the successor down to the closest node that's guaranteed to follow it.
 		childCount := len(subsequent.Children)
@@ -930,7 +934,7 @@ func (n *RegexNode) canBeMadeAtomic(subsequent *RegexNode, iterateNullableSubseq
 		if subsequent.T == NtAlternate || (subsequent.T == NtExprCond && childCount == 3) {
 			// condition, yes, and no branch
 			for i := 0; i < childCount; i++ {
-				if !n.canBeMadeAtomic(subsequent.Children[i], iterateNullableSubsequent, false) {
+				if !n.canBeMadeAtomicAfter(subsequent.Children[i], iterateNullableSubsequent, false, steppedOverNonboundary) {
 					return false
 				}
 			}
